@@ -243,7 +243,8 @@ fn path_args_for(rng: &mut Rng, form: PathForm, paths: &[String]) -> Vec<String>
         PathForm::FilesFrom => match rng.below(3) {
             0 => paths.to_vec(),
             1 => dirs,
-            _ => dirs.iter().map(|d| format!("{d}/*.pas")).collect(),
+            // (every file of a scenario is a source file, whatever its extension)
+            _ => dirs.iter().map(|d| format!("{d}/*")).collect(),
         },
     }
 }
@@ -461,7 +462,13 @@ pub fn generate_c16(seed: u64, run: u64, corpus: &Corpus, tier: Tier, stats: &mu
                 _ => SizeClass::Medium,
             };
             if let Some((b, e, bl, _k, _ra)) = screened_content("C16", &mut rng, corpus, &opts, class, p.max_bytes, 8, stats, &mut timing_sensitive) {
-                let mut f = SimFile::new(&format!("{prefix}{}/unit{}.pas", if rng.chance(1, 2) { "a" } else { "b" }, k + 1), b);
+                // now and then a same-stem sibling of the first file (unit0.pas / unit0.dpr)
+                let name = if k == 0 && form != PathForm::Glob && rng.chance(1, 3) {
+                    format!("{prefix}a/unit0.dpr")
+                } else {
+                    format!("{prefix}{}/unit{}.pas", if rng.chance(1, 2) { "a" } else { "b" }, k + 1)
+                };
+                let mut f = SimFile::new(&name, b);
                 match rng.below(16) {
                     0 => f.readable = false,
                     1 => f.writable = false,
@@ -994,7 +1001,13 @@ pub fn generate_c18(seed: u64, run: u64, corpus: &Corpus, tier: Tier, stats: &mu
         let dir = rng.below(3);
         let name = if rng.chance(1, 6) { "same".to_string() } else { format!("u{i}") };
         let prefix = if form == PathForm::Explicit { "simfs:/" } else { "root/" };
-        let ext = if form == PathForm::Directory { *rng.pick(&["pas", "pas", "dpr", "dpk", "PAS", "Dpr"]) } else { "pas" };
+        // (glob patterns here select *.pas only; elsewhere the other source extensions occur too,
+        // which also gives same-stem siblings such as same.pas / same.dpr in one directory)
+        let ext = match form {
+            PathForm::Glob => "pas",
+            PathForm::Directory => *rng.pick(&["pas", "pas", "dpr", "dpk", "PAS", "Dpr"]),
+            _ => *rng.pick(&["pas", "pas", "pas", "dpr", "dpk"]),
+        };
         let mut path = format!("{prefix}d{dir}/{name}.{ext}");
         while case.files.iter().any(|f| f.path.eq_ignore_ascii_case(&path)) {
             path = format!("{prefix}d{dir}/{name}_{i}.{ext}");
